@@ -133,35 +133,48 @@ noncomputable def lnkdeDocDensity (m n : Nat) (o : Nat → Option ℝ) (y : Nat 
   (∑ s ∈ range n, logNormalPDFv (Real.log (y s))
     (bwDoc n (mvar m (logo o)) * bwDoc n (mvar m (logo o))) v) / n
 
-/-- Full statement (NOT true of the code as it is):
-    `filterVal .lnkde … = sumLogDensity … (fun r j => lnkdeDocDensity m n (obs · r j) (y · r j))`.
-    What holds: LogNormalKDEFilter exceeds the log-normal KDE log-density *with the bandwidth of the
-    simulated values* by exactly `Σ log y` over the non-missing measurements (the Jacobian term of
-    the log-normal density is missing). -/
-theorem C12_lognormalKDE_is_documented_partial (m n R T : Nat) (hn : 0 < n)
+/-- LogNormalKDEFilter (as repaired by 95a9ff7): `Σ log ((1/n_s) Σ_s LN(y_ijr | ỹ_sjr, bw_jr))` with the
+    rule-of-thumb bandwidth of the SIMULATED log-values.  (The class docstring takes the bandwidth
+    from the measured log-values: `lnkdeDocDensity`, `C12_lognormalKDE_bandwidth_counterexample`.) -/
+theorem C12_lognormalKDE_is_documented (m n R T : Nat) (hn : 0 < n)
     (obs : Nat → Nat → Nat → Option ℝ) (y : Nat → Nat → Nat → ℝ) (hpos : ObsPositive m R T obs)
     (hv : ∀ r, r < R → ∀ j, j < T → 0 < varI n (logv (fun s => y s r j))) :
     filterVal .lnkde m n R T obs y
+      = sumLogDensity m R T obs (fun r j v => lnkdeSimDensity n (fun s => y s r j) v) :=
+  filterVal_eq_sumLog .lnkde m n R T obs y
+    (fun r j v => kdeTerm n (logv (fun s => y s r j)) (Real.log v) - Real.log v) _
+    (fun r _ j _ => by
+      simp only [cellVal, lnkdeCell]
+      rw [msum_logo])
+    (fun r hr j hj i hi v hiv => by
+      have := lnkde_term_doc n hn (fun s => y s r j) v (hv r hr j hj) (hpos i hi r hr j hj v hiv)
+      unfold lnkdeSimDensity
+      linarith)
+
+/-- the `legacy` class (before 95a9ff7) exceeds that value by exactly `Σ log y` over the non-missing
+    measurements: the Jacobian term of the log-normal density was missing -/
+theorem C12_lognormalKDE_legacy_partial (m n R T : Nat) (hn : 0 < n)
+    (obs : Nat → Nat → Nat → Option ℝ) (y : Nat → Nat → Nat → ℝ) (hpos : ObsPositive m R T obs)
+    (hv : ∀ r, r < R → ∀ j, j < T → 0 < varI n (logv (fun s => y s r j))) :
+    filterValLnkdeLegacy m n R T obs y
       = sumLogDensity m R T obs (fun r j v => lnkdeSimDensity n (fun s => y s r j) v)
         + ∑ r ∈ range R, ∑ j ∈ range T,
             (((List.range m).filterMap (fun i => obs i r j)).map Real.log).sum := by
-  unfold filterVal sumLogDensity
+  rw [← C12_lognormalKDE_is_documented m n R T hn obs y hpos hv]
+  unfold filterValLnkdeLegacy filterVal
   simp only [isum_eq, ← Finset.sum_add_distrib]
-  refine Finset.sum_congr rfl fun r hr => Finset.sum_congr rfl fun j hj => ?_
-  have hr' := mem_range.mp hr
-  have hj' := mem_range.mp hj
-  simp only [cellVal, lnkdeCell, kdeCell]
-  rw [msum_logo, ← msum_eq_filterMap, ← msum_eq_filterMap, ← msum_add]
-  exact msum_congr m _ _ _ (fun i hi v hiv =>
-    lnkde_term_doc n hn _ v (hv r hr' j hj') (hpos i hi r hr' j hj' v hiv))
+  refine Finset.sum_congr rfl fun r _ => Finset.sum_congr rfl fun j _ => ?_
+  simp only [cellVal]
+  rw [lnkdeCellLegacy_eq, msum_logo, ← msum_eq_filterMap]
 
 /-- Witness: two measurements `2, 3` of one observable at one time, two simulated values `2, 3`.
     Measured and simulated log-values coincide, so both bandwidth rules give the same number and
-    the documented value is the model's value minus `log 2 + log 3 ≠ 0`. -/
+    the documented value is the LEGACY model's value minus `log 2 + log 3 ≠ 0` (regression witness for
+    commit 95a9ff7; the harness replays it on chi, where it must now agree with the documented value). -/
 theorem C12_lognormalKDE_jacobian_counterexample :
     let obs : Nat → Nat → Nat → Option ℝ := fun i _ _ => if i = 0 then some 2 else some 3
     let y : Nat → Nat → Nat → ℝ := fun s _ _ => if s = 0 then 2 else 3
-    filterVal .lnkde 2 2 1 1 obs y
+    filterValLnkdeLegacy 2 2 1 1 obs y
       ≠ sumLogDensity 2 1 1 obs (fun r j v =>
           lnkdeDocDensity 2 2 (fun i => obs i r j) (fun s => y s r j) v) := by
   intro obs y
@@ -195,7 +208,7 @@ theorem C12_lognormalKDE_jacobian_counterexample :
   have hbw : bwDoc 2 (mvar 2 (logo (fun i => obs i 0 0))) * bwDoc 2 (mvar 2 (logo (fun i => obs i 0 0)))
       = kdeBw2 2 (logv (fun s => y s 0 0)) := by
     rw [hmvar]; exact bwDoc_sq 2 (by norm_num) _ hvpos.le
-  have hpart := C12_lognormalKDE_is_documented_partial 2 2 1 1 (by norm_num) obs y
+  have hpart := C12_lognormalKDE_legacy_partial 2 2 1 1 (by norm_num) obs y
     (by
       intro i _ r _ j _ v hv
       simp only [obs] at hv
@@ -248,7 +261,8 @@ theorem C12_spec_twin (k : FKind) (m n R T : Nat) (hn : 0 < n)
           ∀ r, r < R → ∀ j, j < T → ∀ c, c < K → 0 < varI (n / K) (blk (n / K) c (fun s => y s r j))
       | .lognorm => ObsPositive m R T obs ∧
           ∀ r, r < R → ∀ j, j < T → 0 < varI n (logv (fun s => y s r j))
-      | .lnkde => False) :
+      | .lnkde => ObsPositive m R T obs ∧
+          ∀ r, r < R → ∀ j, j < T → 0 < varI n (logv (fun s => y s r j))) :
     docVal k m n R T obs y = filterVal k m n R T obs y := by
   unfold docVal filterVal
   simp only [isum_eq]
@@ -290,7 +304,22 @@ theorem C12_spec_twin (k : FKind) (m n R T : Nat) (hn : 0 < n)
     simp only [docTerm, log_real]
     rw [npdf_eq _ _ _ (hv r hr' j hj'), ln_term_doc _ _ _ (hv r hr' j hj') (hpos i hi r hr' j hj' v hiv)]
     rfl
-  | lnkde => exact hk.elim
+  | lnkde =>
+    obtain ⟨hpos, hv⟩ := hk
+    rw [show cellVal .lnkde m n (fun i => obs i r j) (fun s => y s r j) = lnkdeCell m n _ _ from rfl]
+    unfold lnkdeCell
+    rw [msum_logo]
+    refine msum_congr m _ _ _ fun i hi v hiv => ?_
+    have hvv := hv r hr' j hj'
+    have hb : 0 < kdeBw2 n (logv (fun s => y s r j)) := mul_pos (kdeFactor_pos n) hvv
+    simp only [docTerm, log_real, ofNat_real, isum_eq]
+    rw [bwDoc_sq n hn _ hvv.le,
+      lnkde_term_doc n hn (fun s => y s r j) v hvv (hpos i hi r hr' j hj' v hiv)]
+    have : ∑ s ∈ range n, npdf (Real.log (y s r j)) (kdeBw2 n (logv fun s => y s r j)) (Real.log v) / v
+        = ∑ s ∈ range n, logNormalPDFv (Real.log (y s r j)) (kdeBw2 n (logv fun s => y s r j)) v :=
+      Finset.sum_congr rfl fun s _ => by rw [npdf_eq _ _ _ hb, logNormalPDFv_eq]
+    rw [this]
+    ring
 
 /-! ## missing-data invariance -/
 
